@@ -40,7 +40,7 @@ for n, tier, to, mem in ((1, Q, 400, 6), (2, Q, 600, 8), (3, T, 1500, 12), (4, X
 for n in (2, 3):
     H(f"c09_ascii85_noeod_{n}", "object.rs", {"C09": X}, ["object::Stream::decode_ascii85"], f"all inputs of exactly {n} bytes without EOD marker", timeout=1800, mem_gb=10)
 for n in (4, 5, 6):
-    H(f"c04_ascii85_nopanic_{n}", "object.rs", {"C04": X}, ["object::Stream::decode_ascii85"], f"all 256^{n} inputs: no panic", timeout=900, mem_gb=8)
+    H(f"c04_ascii85_nopanic_{n}", "object.rs", {"C04": Q}, ["object::Stream::decode_ascii85"], f"all 256^{n} inputs of exactly {n} bytes (with or without EOD, any garbage): Ok or Err, no panic (overflow checks on)", timeout=600, mem_gb=6)
 
 # =============================== C09 / C04: predictor plumbing, Length, compress =================
 H("c09_predictor_params", "object.rs", {"C09": Q}, ["object::Stream::decompress_predictor"],
@@ -66,7 +66,7 @@ for n in ("c09_chain_flate_name_dict", "c09_chain_lzw_array_dict", "c09_chain_pa
 WK = {"C01": Q, "C03": Q, "C14": Q}
 WKT = {"C01": T, "C03": T, "C14": T}
 WKX = {"C01": X}
-for n, pr, to, mem in ((1, WK, 400, 6), (2, WK, 600, 8), (3, WKX, 2700, 10)):
+for n, pr, to, mem in ((1, WK, 400, 6), (2, WK, 600, 8), (3, WK, 600, 8), (4, WKT, 900, 8)):
     H(f"c01_name_{n}", "writer.rs", pr, ["writer::Writer::write_name"],
       f"all names of exactly {n} bytes: token is regular printable ASCII and an ISO 7.3.5 reader recovers the bytes", timeout=to, mem_gb=mem)
 for n, pr, to, mem in ((1, WK, 400, 6), (2, WK, 900, 14), (3, WKX, 900, 10), (4, WKX, 2700, 10)):
@@ -80,7 +80,7 @@ H("c01_separator_name", "writer.rs", {"C01": Q, "C03": Q, "C14": Q}, ["writer::W
 H("c01_hexstr_2", "writer.rs", WK, ["writer::Writer::write_string"], "all hex strings of 2 bytes", timeout=400, mem_gb=6)
 H("c01_int_i16", "writer.rs", WK, ["writer::Writer::write_object"], "all i16 integers read back by a decimal reader", timeout=600, mem_gb=8)
 H("c01_int_i64", "writer.rs", WKX, ["writer::Writer::write_object"], "all i64 integers", timeout=2700, mem_gb=10)
-H("c03_xref_entry", "writer.rs", {"C03": X}, ["xref::XrefEntry::write_xref_entry"], "all (u32 offset, u16 generation)", timeout=2700, mem_gb=10)
+H("c03_xref_entry", "writer.rs", {"C03": T, "C01": T}, ["xref::XrefEntry::write_xref_entry"], "ALL (u32 offset, u16 generation): in-use entry is exactly 20 bytes 'nnnnnnnnnn ggggg n' + 2-byte EOL and both fields read back", timeout=3000, mem_gb=6)
 H("c03_xref_entry_free", "writer.rs", {"C03": Q, "C01": Q}, ["xref::XrefEntry::write_xref_entry"], "Free / UnusableFree / Compressed entries are 20-byte 'f' entries", timeout=600, mem_gb=8)
 H("c01_xrefstm_entry_packing", "parser_aux.rs", {"C01": Q, "C03": Q, "C02": Q}, ["parser_aux::read_big_endian_integer"],
   "all (u8,u32,u16) entries packed [1 4 2] big-endian are read back by the reader's field decoder", timeout=400, mem_gb=4)
@@ -101,12 +101,25 @@ H("c19_write_stream_chunked", "writer.rs", {"C19": X, "C03": X}, ["writer::Write
 H("c19_counting_write_partial", "writer.rs", {"C19": Q}, ["writer::CountingWrite::write"], "single write of 4 bytes to a sink accepting 0..=4 bytes", timeout=300, mem_gb=4)
 
 # =============================== C16 / C04: text strings, one-byte encodings =====================
+TS = ["common_data_structures::text_string", "common_data_structures::decode_text_string", "encodings::encode_utf16_be", "encodings::bytes_to_string"]
+for k, rng in ((1, "U+0000..U+007F (all ASCII incl. C0 controls and DEL)"), (2, "U+0080..U+07FF"), (3, "U+0800..U+FFFF without surrogates"), (4, "U+10000..U+10FFFF")):
+    H(f"c16_text_string_rt_utf8len{k}", "cds.rs", {"C16": X}, TS, f"every scalar value in {rng} as a one-character string: text_string then decode_text_string returns it", timeout=900, mem_gb=10)
+H("c16_text_string_utf8_bom_len2", "cds.rs", {"C16": Q}, ["common_data_structures::decode_text_string", "encodings::encode_utf8"], "every scalar value U+0080..U+07FF, UTF-8 with byte-order mark: decodes to the text without the mark", timeout=900, mem_gb=10)
+H("c16_pdfdoc_decode_ascii_byte", "encodings.rs", {"C16": Q}, ["encodings::bytes_to_string", "encodings::mappings::PDF_DOC_ENCODING"],
+  "every ASCII byte 0x00..0x7F through bytes_to_string(PDF_DOC_ENCODING): exactly one character comes out", timeout=900, mem_gb=12,
+  witness_from="c16_pdfdoc_ascii_cells_defined")
+H("c16_pdfdoc_ascii_cells_defined", "encodings.rs", {"C16": X}, ["encodings::mappings::PDF_DOC_ENCODING"], "witness helper: ASCII cells of the table are defined", timeout=300, mem_gb=4)
+H("c16_decode_pdfdoc_ascii_1", "cds.rs", {"C16": T}, ["common_data_structures::decode_text_string", "encodings::bytes_to_string"], "every one-byte ASCII string (0x00..0x7F, i.e. what text_string() emits for a one-character ASCII text incl. C0 controls): decodes to exactly one character", timeout=900, mem_gb=16)
+H("c16_decode_utf16_unit", "cds.rs", {"C16": Q}, ["common_data_structures::decode_text_string"], "FE FF + every non-surrogate UTF-16 unit: decodes to that character", timeout=900, mem_gb=8)
+H("c16_decode_utf16_pair", "cds.rs", {"C16": Q}, ["common_data_structures::decode_text_string"], "FE FF + every surrogate pair: decodes to the astral character", timeout=900, mem_gb=8)
+H("c16_text_string_dispatch", "cds.rs", {"C16": Q}, ["common_data_structures::text_string", "encodings::encode_utf16_be"], "every scalar value <= U+07FF as a one-character text: ASCII stays one literal byte, the rest becomes BOM + UTF-16BE", timeout=900, mem_gb=10, stubs=["<str>::is_ascii -> byte loop (same semantics)"])
 H("c16_text_string_ascii_1", "cds.rs", {"C16": X}, ["common_data_structures::text_string", "common_data_structures::decode_text_string"], "every ASCII character as a one-character string", timeout=900, mem_gb=12, fs_size=300)
 H("c16_text_string_rt_1", "cds.rs", {"C16": X}, ["common_data_structures::text_string", "common_data_structures::decode_text_string"], "every Unicode scalar value", timeout=900, mem_gb=8)
 H("c16_text_string_rt_2", "cds.rs", {"C16": X}, ["common_data_structures::text_string"], "every pair of scalar values", timeout=2700, mem_gb=12)
 H("c16_text_string_utf8_bom", "cds.rs", {"C16": X}, ["common_data_structures::decode_text_string"], "every scalar value, UTF-8 with BOM", timeout=900, mem_gb=8)
-for n in (3, 4, 5):
-    H(f"c04_decode_text_string_{n}", "cds.rs", {"C04": X}, ["common_data_structures::decode_text_string"], f"all raw strings of {n} bytes", timeout=900, mem_gb=8)
+for n, tier, to in ((3, Q, 600), (4, Q, 900), (5, T, 1500)):
+    H(f"c04_decode_text_string_{n}", "cds.rs", {"C04": tier, "C16": tier}, ["common_data_structures::decode_text_string", "encodings::bytes_to_string"],
+      f"all 256^{n} raw strings of exactly {n} bytes (any BOM, odd-length UTF-16, lone surrogates, invalid UTF-8): Ok or Err, never a panic", timeout=to, mem_gb=8)
 for t in ("standard", "macroman", "macexpert", "winansi", "pdfdoc"):
     H(f"c16_table_{t}", "encodings.rs", {"C16": X}, ["encodings::bytes_to_string"], f"{t} table x all 256 bytes through bytes_to_string", timeout=600, mem_gb=6)
 H("c16_reencode_winansi", "encodings.rs", {"C16": X}, ["encodings::string_to_bytes"], "WinAnsi x all 256 bytes", timeout=3000, mem_gb=8)
@@ -133,7 +146,7 @@ for v, d in (("rc4_key40", "RC4, 40-bit file key"), ("rc4_key128", "RC4, 128-bit
       f"Algorithm 1, {d}: all file keys x all object numbers (u32) x all generations (u16): the MD5 input is key || id[0..3] LE || gen[0..2] LE (|| 'sAlT'), one digest, truncated to min(n+5,16); MD5 replaced by the recording model", timeout=600, mem_gb=6, models=MD5M, stubs=["md-5 -> transparent recording hash model"])
 A2 = ["encryption::algorithms::PasswordAlgorithm::compute_file_encryption_key_r4", "encryption::Permissions::p_value"]
 for v, d in (("r2_pw5", "revision 2, 5-byte password"), ("r3_key40_pw0", "revision 3, 40-bit key, empty password"), ("r3_key128_pw33", "revision 3, 128-bit key, 33-byte password (truncated to 32)"), ("r4_key128_pw5", "revision 4, 128-bit key, 5-byte password, EncryptMetadata symbolic")):
-    H(f"c06_alg2_{v}", "algorithms.rs", {"C06": X}, A2,
+    H(f"c06_alg2_{v}", "algorithms.rs", {"C06": Q if v == "r2_pw5" else X}, A2,
       f"Algorithm 2, {d}: all passwords x all 32-byte O x all P x all 8-byte file ids: MD5 input, number of MD5 rounds (1+50) and truncations as the standard prescribes; MD5 replaced by the recording model",
       timeout=1500, mem_gb=12, models=MD5M, stubs=["md-5 -> transparent recording hash model", "std::hash::RandomState::new -> fixed keys"] + LS)
 H("c05_identity_filter", "crypt_filters.rs", {"C05": Q}, ["encryption::crypt_filters::IdentityCryptFilter"], "all 4-byte data, all 5-byte keys: encrypt and decrypt are the identity", timeout=300, mem_gb=4, models=MD5M)
@@ -157,6 +170,10 @@ H("c15_array_range_then_char", "cmap.rs", {"C15": X}, CM, "bfrange lo..lo+2 (lo 
 H("c15_hexstring_range_then_char", "cmap.rs", {"C15": X}, CM, "bfrange lo..lo+3 with two-unit target, then bfchar at any code 0..=9; all codes 0..=9", timeout=1200, models=RM, stubs=RMS)
 H("c15_codepoint_range_and_len", "cmap.rs", {"C15": X}, CM, "2-byte incrementing range lo..lo+n (lo<=200, n<=50), all codes 0..=300 at code length 1 and 2", timeout=1200, models=RM, stubs=RMS)
 H("c04_cmap_hostile_targets", "cmap.rs", {"C15": X}, CM, "empty target, overflowing increment, array shorter than range, equal adjacent arrays; all codes 0..=8: no panic", timeout=1200, models=RM, stubs=RMS)
+
+
+for n in ("dbg_fold_vec_object", "dbg_fold_dict", "dbg_fold_filters", "dbg_fold_stream_get", "dbg_fold_as_name", "dbg_fold_as_name_vec", "dbg_fold_filters_concrete"):
+    H(n, "object.rs", {"DBG": X}, [], "probe", timeout=600, stubs=LS)
 
 
 def select(pid, tier):
